@@ -219,6 +219,17 @@ let () =
        | "#" :: _ -> ()
        | [ "CASE"; id ] -> case := id; idx := 0; state := []
        | [ "END" ] -> ()
+       | ("XGrid" | "XGen") :: _ as toks ->
+           incr idx;
+           let kind = List.hd toks in
+           let st = { toks = List.tl toks } in
+           let p_x st = (match next st with
+             | "nan" -> NaN | "inf" -> PInf | "-inf" -> NInf | t -> Fin (qc_of_string t)) in
+           let l = p_list st p_x in
+           let res = (if kind = "XGrid"
+                      then (match Model.xgrid_ctor l with Ok _ -> "OK" | Throw e -> "THROW " ^ string_of_err e | UB k -> "UB " ^ string_of_ub k)
+                      else (match Model.xgen_ctor1 l with Ok _ -> "OK" | Throw e -> "THROW " ^ string_of_err e | UB k -> "UB " ^ string_of_ub k)) in
+           Printf.printf "%s.%d %s\n" !case !idx res
        | toks ->
            incr idx;
            let st = { toks } in
